@@ -74,13 +74,13 @@ WK_ASSUME = [
 ]
 
 REGISTRY = {
-    "C01": {"module": "props.tokenizer", "units": ["lemmas", "process", "post_process", "iter_tokens"],
+    "C01": {"module": "props.tokenizer", "units": ["lemmas", "ctor", "process", "post_process", "iter_tokens"],
             "witness": "tok", "assumptions": TOK_ASSUME},
     "C02": {"module": "props.tokenizer", "units": ["lemmas", "ctor", "process", "post_process", "iter_tokens"],
             "witness": "tok", "assumptions": TOK_ASSUME},
     "C03": {"module": "props.tokenizer", "units": ["lemmas", "ctor", "process", "post_process", "iter_tokens"],
             "witness": "tok", "assumptions": TOK_ASSUME},
-    "C04": {"module": "props.tokenizer", "units": ["lemmas", "process", "post_process", "iter_tokens"],
+    "C04": {"module": "props.tokenizer", "units": ["lemmas", "ctor", "process", "post_process", "iter_tokens"],
             "witness": "tok", "assumptions": TOK_ASSUME + [
                 "the 'consequently' sentences of C04 are read as corollaries of Emit-equivalence; lemma E "
                 "(piece inside its stretch, stretch starts valid) is proved, the coverage corollary is proved "
@@ -88,13 +88,21 @@ REGISTRY = {
     "C05": {"parts": [{"module": "props.split", "units": ["split", "make_region", "blocks_lemma", "region_split"]},
                       {"module": "props.regions", "units": ["post_init", "concat_lemma", "meta"]},
                       {"module": "props.readers", "units": ["fixed", "audioreader"]},
-                      {"module": "props.sources", "units": ["buffer_read", "file_read", "file_open"], "include_all": True}],
+                      {"module": "props.sources", "units": ["buffer_read", "file_read", "file_open"], "include_all": True},
+                      # "the regions are exactly the tokenizer segmentation (C01-C04) of the per-window decisions (C07)"
+                      {"module": "props.tokenizer", "units": ["lemmas", "ctor", "process", "post_process", "iter_tokens", "tokenize"],
+                       "also_tags": ["C01", "C02", "C03", "C04"]},
+                      {"module": "props.validator", "units": ["to_array", "energy", "selector", "is_valid"], "also_tags": ["C07"]}],
             "witness": "api", "assumptions": SPLIT_ASSUME + [
                 "the last sentence of C05 (regions are the tokenizer segmentation of the per-window decisions) is the "
-                "composition of the split wiring proved here with C01-C04 (tokenizer) and C07 (validator) by modularity",
+                "composition of the split wiring proved here with C01-C04 (tokenizer) and C07 (validator), whose units and "
+                "obligations are part of this check",
                 "start*rate == a*B and end - start == duration hold over the reals (float products read as real arithmetic)"]},
     "C06": {"parts": [{"module": "props.split", "units": ["dtnw", "split"]},
-                      {"module": "props.readers", "units": ["fixed"]}],
+                      {"module": "props.readers", "units": ["fixed"]},
+                      # the event-level sentences are the tokenizer's length and silence bounds at the proved window counts
+                      {"module": "props.tokenizer", "units": ["lemmas", "ctor", "process", "post_process", "iter_tokens"],
+                       "also_tags": ["C02", "C03"]}],
             "witness": "api", "assumptions": SPLIT_ASSUME + [
                 "_duration_to_nb_windows is proved in exact binary64 semantics for every float quotient: one linear-integer "
                 "problem per binary exponent (83 slices cover [2**-30, 2**53)), plus (0, 2**-30) and integers >= 2**53; "
@@ -102,7 +110,8 @@ REGISTRY = {
                 "the only IEEE fact used is that a correctly rounded subtraction returns the exact result when it is "
                 "representable (representability is an obligation of each slice)",
                 "1e-9 is read as the Python literal (the double nearest to 10**-9) in code and spec",
-                "the event-level sentences of C06 are C02/C03/C04 instantiated with the proved window counts"]},
+                "the event-level sentences of C06 are C02/C03 instantiated with the proved window counts; the tokenizer units "
+                "and their C02/C03 obligations are part of this check"]},
     "C07": {"module": "props.validator", "units": ["to_array", "energy", "selector", "is_valid", "monotone"],
             "witness": "api", "assumptions": [
                 "numpy is a LIBRARY MODEL (pyvc/npmodel.py, assumed): frombuffer(int8/16/32) = signed little-endian decode of "
@@ -115,14 +124,15 @@ REGISTRY = {
                 "sqrt/log10 axioms (instantiated): y>=0 => sqrt(y)>=0 and (sqrt(y)>0 <=> y>0); y>0 => log10(y) = 2*log10(sqrt(y)); "
                 "log10(1e-10) = -10; the -200 dB floor is en(y) = -200 if sqrt(y) < 1e-10 else 10*log10(y)",
                 "sample widths are case-split over {1, 2, 4, other}; channel count and window length are symbolic"]},
-    "C08": {"parts": [{"module": "props.tokenizer", "units": ["lemmas", "process", "post_process", "iter_tokens", "tokenize"]},
+    "C08": {"parts": [{"module": "props.tokenizer", "units": ["lemmas", "ctor", "process", "post_process", "iter_tokens", "tokenize"]},
                       {"module": "props.split", "units": ["split"]},
                       {"module": "props.readers", "units": ["fixed", "overlap_iter", "overlap_misc", "limiter"], "include_all": True}],
             "witness": "tok", "assumptions": TOK_ASSUME + ["split(): the AudioReader / tokenizer constructors are used by contract"]},
     "C09": {"parts": [{"module": "props.split", "units": ["split", "region_split"]},
                       {"module": "props.iofuncs", "units": ["guess_format", "get_audio_parameters", "get_audio_source", "from_file", "loaders"]},
                       {"module": "props.readers", "units": ["audioreader", "limiter", "fixed"], "include_all": True},
-                      {"module": "props.sources", "units": ["buffer_read", "file_read", "file_open"], "include_all": True}],
+                      {"module": "props.sources", "units": ["buffer_init", "buffer_read", "buffer_position", "file_read", "file_open"],
+                       "include_all": True}],
             "witness": "api", "assumptions": SPLIT_ASSUME + IO_ASSUME + [
                 "'same audio, same result' is the modularity argument: split() and the framing are verified against the "
                 "source INTERFACE only, and every container kind is verified to build a source implementing that interface "
@@ -155,7 +165,7 @@ REGISTRY = {
                       {"module": "props.split", "units": ["split"]},
                       {"module": "props.regions", "units": ["post_init", "meta"]}],
             "witness": "workers", "assumptions": WK_ASSUME},
-    "C13": {"parts": [{"module": "props.workers", "units": ["worker_run", "worker_misc", "stream_saver", "joiner", "region_saver", "saver_init",
+    "C13": {"parts": [{"module": "props.workers", "units": ["worker_run", "worker_misc", "notify", "stream_saver", "joiner", "region_saver", "saver_init",
                                                               "split_and_join", "tokenizer_init_read", "structure"]},
                       {"module": "props.regions", "units": ["make_silence", "join", "check_iter_others"]},
                       {"module": "props.iofuncs", "units": ["region_save", "to_file", "guess_format"]}],
@@ -194,11 +204,11 @@ REGISTRY = {
                 "sum() is 0 + r1 (-> __radd__) followed by __add__",
                 "division: 'sum of the pieces equals the original' follows from the proved tiling "
                 "(pieces are self[s(j):s(j+1)], s(0)=0, s(count)=len) by the proved concat lemma and induction on the piece count"]},
-    "C20": {"parts": [{"module": "props.tokenizer", "units": ["lemmas", "process", "post_process", "iter_tokens"]},
+    "C20": {"parts": [{"module": "props.tokenizer", "units": ["lemmas", "ctor", "process", "post_process", "iter_tokens", "stale_fields"]},
                       {"module": "props.split", "units": ["split"]},
                       {"module": "props.validator", "units": ["is_valid"]},
                       {"module": "props.sources", "units": ["buffer_position", "buffer_init"]},
-                      {"module": "props.readers", "units": ["recorder", "replay_lemma"]}],
+                      {"module": "props.readers", "units": ["recorder", "replay_lemma", "limiter", "overlap_misc"], "include_all": True}],
             "witness": "tok", "assumptions": TOK_ASSUME + [
                 "split(): every call builds a new reader, validator and tokenizer (constructor contracts) and reads a region's "
                 "immutable bytes; is_valid assigns no field (frame obligation), numpy functions are pure (assumed); "
